@@ -38,7 +38,7 @@ MUTANTS = [
     ("dps_args_swapped", B, "dist, proj_m, t_m = self.matcher.map.distance_point_to_segment(edge_o.p1, edge_m.p1, edge_m.p2)", "dist, proj_m, t_m = self.matcher.map.distance_point_to_segment(edge_o.p1, edge_m.p2, edge_m.p1)", ["C05", "C02"]),
     ("ne_overwrite_unconditional", B, "                                if m_next.logprob > lattice_best[m_next.shortkey].logprob:\n                                    lattice_best[m_next.shortkey] = m_next\n                                    # lattice_toinsert.append(m_next)\n                                    self.lattice[obs_idx].upsert(m_next)\n                                elif __debug__ and logger.isEnabledFor(logging.DEBUG):\n                                    m_next.stop = True\n                                    # lattice_toinsert.append(m_next)\n                                    self.lattice[obs_idx].upsert(m_next)\n                            else:\n                                lattice_best[m_next.shortkey] = m_next\n                                # lattice_toinsert.append(m_next)\n                                self.lattice[obs_idx].upsert(m_next)\n                            if __debug__:\n                                logger.debug(str(m_next))\n                    else:\n                        if __debug__:\n                            logger.debug(self.matching.repr_static(('x', '{} < going back'", "                                if True:\n                                    lattice_best[m_next.shortkey] = m_next\n                                    self.lattice[obs_idx].dict(0)[m_next.key] = m_next\n                            else:\n                                lattice_best[m_next.shortkey] = m_next\n                                # lattice_toinsert.append(m_next)\n                                self.lattice[obs_idx].upsert(m_next)\n                            if __debug__:\n                                logger.debug(str(m_next))\n                    else:\n                        if __debug__:\n                            logger.debug(self.matching.repr_static(('x', '{} < going back'", ["C06"]),
     ("prune_ascending", B, "ms = sorted(cur_lattice, key=lambda t: t.prune_value, reverse=True)", "ms = sorted(cur_lattice, key=lambda t: t.prune_value, reverse=False)", ["C07"]),
-    ("prune_no_tie_extension", B, "            while cur_width < len(ms) and ms[cur_width].prune_value == m_last.prune_value:", "            while False and cur_width < len(ms) and ms[cur_width].prune_value == m_last.prune_value:", ["C07", "C10"]),
+    ("prune_no_tie_extension", B, "            while cur_width < len(ms) and (ms[cur_width].prune_value == m_last.prune_value or", "            while False and cur_width < len(ms) and (ms[cur_width].prune_value == m_last.prune_value or", ["C07", "C10"]),
     ("prune_never_postpones", B, "                    m.delayed = expand_upto + 1  # expand later", "                    m.delayed = expand_upto  # expand later", ["C07"]),
     ("extend_no_reactivation", B, "                    self.lattice[len(self.path) - 1].set_delayed(self.expand_now)", "                    pass", ["C08"]),
     ("ne_expand_flag_dropped", B, "                self._match_non_emitting_states(obs_idx - 1, expand=expand)", "                self._match_non_emitting_states(obs_idx - 1, expand=False)", ["C08", "C07"]),
